@@ -852,6 +852,11 @@ pub fn gen_case(rng: &mut Rng, pool_len: usize, focus: &str, nops: usize) -> Gen
     }
     // buckets in play: a few, weighted towards the ends
     let scripted_c16 = focus == "c16" && rng.chance(1, 2);
+    let c16_kind = if scripted_c16 { rng.below(4) } else { 9 };
+    if c16_kind == 1 {
+        // the candidate must stay pending while a slot is freed
+        timeout_zero = false;
+    }
     let nb = if scripted_c16 { 7 } else { rng.range(2, 5) as usize };
     let mut bucket_choice = vec![];
     while bucket_choice.len() < nb {
@@ -919,7 +924,23 @@ pub fn gen_case(rng: &mut Rng, pool_len: usize, focus: &str, nops: usize) -> Gen
     };
     // scripted preambles, then random operations
     let slot_of = |j: usize, i: usize| (offset[j] + i) % (SLOTS - 1);
-    if scripted_c16 && rng.chance(1, 3) {
+    if c16_kind == 1 {
+        // bucket `focus_b` is full (two subnet-A nodes, 14 without IPv4, head disconnected) and has a
+        // pending candidate without IPv4 whose timeout has not elapsed; a member is removed, then
+        // the candidate is offered again with a subnet-A record (or after a member moved into
+        // subnet A): the bucket filter must still be asked
+        let tcp_only = rng.chance(1, 3);
+        let a_var = if tcp_only { 4 } else { 0 };
+        for i in 0..16 {
+            let var = if i == 5 || i == 9 { a_var } else { 3 };
+            ops.push(Op::InsertOrUpdate(keys[focus_b][i], slot_of(focus_b, i) * VARIANTS + var, i >= 3 && rng.chance(2, 3), false));
+        }
+        ops.push(Op::InsertOrUpdate(keys[focus_b][16], slot_of(focus_b, 16) * VARIANTS + 3, true, false));
+        ops.push(Op::Remove(keys[focus_b][6 + rng.below(3) as usize * 4 / 3]));
+        let cand_var = if rng.chance(1, 2) { a_var } else { 4 - a_var };
+        ops.push(Op::InsertOrUpdate(keys[focus_b][16], slot_of(focus_b, 16) * VARIANTS + cand_var, true, rng.chance(1, 3)));
+        ops.push(Op::Iter);
+    } else if c16_kind == 0 {
         // bucket `focus_b`: two subnet-A nodes and 14 nodes without IPv4, head disconnected; a
         // candidate without IPv4 becomes pending; its record is then updated into subnet A (or a
         // member's record is), its timeout elapses: the promotion must be refused by the bucket filter
